@@ -53,6 +53,8 @@ type handler1 struct {
 	pktBuffer        []snPkts.Packet
 	group            *errgroup.Group
 	transactions     *transactions.TransactionStore
+	// The topicID sequence has wrapped: all TopicIDs have been used.
+	topicIDsExhausted bool
 	// for testing
 	mockupDialFunc func() net.Conn
 }
@@ -484,8 +486,13 @@ func (h *handler1) mqttReceiveLoop(ctx context.Context) error {
 }
 
 func (h *handler1) newTopicID() (uint16, error) {
+	// TopicIDs are never reused => once exhausted, always exhausted.
+	if h.topicIDsExhausted {
+		return 0, ErrTopicIDsExhausted
+	}
 	topicID, overflow := h.topicID.Next()
 	if overflow {
+		h.topicIDsExhausted = true
 		return 0, ErrTopicIDsExhausted
 	}
 	for {
@@ -493,6 +500,7 @@ func (h *handler1) newTopicID() (uint16, error) {
 			break
 		}
 		if topicID, overflow = h.topicID.Next(); overflow {
+			h.topicIDsExhausted = true
 			return 0, ErrTopicIDsExhausted
 		}
 	}
